@@ -2,6 +2,10 @@
 (* Trace validation of recorded CacheTable scripts: every return value of   *)
 (* get, and whether new(n) panicked, must be what the model prescribes.     *)
 EXTENDS CacheTable, Json, IOUtils, TLC
+(* Values are pairs [k, a]: the value type of the harness compares (==, <) by k only, while a distinguishes every  *)
+(* write; a lookup must return exactly the pair that was written (cfg: Key <- PairKey).                            *)
+PairKey(v) == v.k
+Val(r) == [k |-> r.v, a |-> r.aux]
 
 Rec == ndJsonDeserialize(IOEnv.TRACE)
 VARIABLES l, size, def, slot
@@ -16,19 +20,20 @@ TNew ==
   /\ LET r == Rec[l]
      IN /\ (r.panicked = ~IsPow2(r.n)) = TRUE
         /\ IF r.panicked THEN UNCHANGED <<size, def, slot>>
-           ELSE size' = r.n /\ def' = r.def /\ slot' = << >>
+           ELSE size' = r.n /\ def' = [k |-> r.def, a |-> 0] /\ slot' = << >>
 TAdd == /\ IsEv("add") /\ (Rec[l].idx < size) = TRUE
-        /\ slot' = AddOp(slot, H(Rec[l]), Rec[l].v) /\ UNCHANGED <<size, def>>
+        /\ slot' = AddOp(slot, H(Rec[l]), Val(Rec[l])) /\ UNCHANGED <<size, def>>
 TRep == /\ IsEv("replace_if") /\ (Rec[l].idx < size) = TRUE
-        /\ slot' = ReplaceIfOp(slot, def, H(Rec[l]), Rec[l].v, PredOf(Rec[l]))
-        /\ (Rec[l].called_with = SlotOf(slot, def, Rec[l].idx).v) = TRUE   \* the predicate saw the slot's current value
+        /\ slot' = ReplaceIfOp(slot, def, H(Rec[l]), Val(Rec[l]), PredOf(Rec[l]))
+        /\ (/\ Rec[l].called_with = SlotOf(slot, def, Rec[l].idx).v.k       \* the predicate saw the slot's current value
+            /\ Rec[l].called_aux = SlotOf(slot, def, Rec[l].idx).v.a) = TRUE
         /\ UNCHANGED <<size, def>>
 TGet == /\ IsEv("get") /\ (Rec[l].idx < size) = TRUE
         /\ LET g == GetOp(slot, def, H(Rec[l]))
-           IN (IF g[1] = "some" THEN Rec[l].some /\ Rec[l].v = g[2] ELSE ~Rec[l].some) = TRUE
+           IN (IF g[1] = "some" THEN Rec[l].some /\ Val(Rec[l]) = g[2] ELSE ~Rec[l].some) = TRUE
         /\ UNCHANGED <<size, def, slot>>
 
-TCInit == l = 1 /\ size = 1 /\ def = 0 /\ slot = << >>
+TCInit == l = 1 /\ size = 1 /\ def = [k |-> 0, a |-> 0] /\ slot = << >>
 TCNext == TNew \/ TAdd \/ TRep \/ TGet
 TCSpec == TCInit /\ [][TCNext]_tcvars
 Accepted ==
